@@ -37,10 +37,14 @@ def commentsOfJson (j : Json) : Except String Comments :=
   if j.isNull then pure none else do
     pure (some (← (← j.getArr?).toList.mapM (·.getStr?)))
 
-def metaOfJson (j : Json) : Except String Meta :=
+mutual
+partial def metaOfJson (j : Json) : Except String Meta :=
   if j.isNull then pure none else do
     let o ← j.getObj?
-    pure (some (← o.toList.mapM fun (k, v) => do pure (k, ← rawOfJson v)))
+    pure (some (← o.toList.mapM fun (k, v) => do
+      match optField v "$e" with
+      | some e => pure (MetaE.expr k (← valOfJson e))
+      | none => pure (MetaE.raw k (← rawOfJson v))))
 
 partial def valOfJson (j : Json) : Except String Val := do
   match optField j "d" with
@@ -63,14 +67,18 @@ partial def valOfJson (j : Json) : Except String Val := do
           else pure (Arg.many k (← (← t[2].getArr?).toList.mapM valOfJson))
         else throw "arg triple"
       pure (.node cls ty c m args)
+end
 
 def commentsToJson : Comments → Json
   | none => .null
   | some l => .arr (l.map Json.str).toArray
 
-def metaToJson : Meta → Json
+mutual
+partial def metaToJson : Meta → Json
   | none => .null
-  | some l => Json.mkObj (l.map fun (k, v) => (k, rawToJson v))
+  | some l => Json.mkObj (l.map fun
+      | .raw k r => (k, rawToJson r)
+      | .expr k v => (k, Json.mkObj [("$e", valToJson v)]))
 
 partial def valToJson : Val → Json
   | .dtype s => Json.mkObj [("d", .str s)]
@@ -83,6 +91,7 @@ partial def valToJson : Val → Json
       ("a", .arr (args.map fun
         | .one k v => Json.arr #[.str k, (0 : Nat), valToJson v]
         | .many k vs => Json.arr #[.str k, (1 : Nat), .arr (vs.map valToJson).toArray]).toArray)]
+end
 
 /-- a payload dict in the format of serde.py (absent keys are absent) -/
 partial def payloadToJson : Payload → Json
@@ -94,7 +103,11 @@ partial def payloadToJson : Payload → Json
       (match cls with | some s => [(keyClass, Json.str s)] | none => []) ++
       (match ty with | some ps => [(keyType, Json.arr (ps.map payloadToJson).toArray)] | none => []) ++
       (match c with | some l => [(keyComments, Json.arr (l.map Json.str).toArray)] | none => []) ++
-      (match m with | some l => [(keyMeta, Json.mkObj (l.map fun (k, v) => (k, rawToJson v)))] | none => []) ++
+      (match m with
+        | some l => [(keyMeta, Json.mkObj (l.map fun
+            | .raw k r => (k, rawToJson r)
+            | .expr k ps => (k, Json.mkObj [(keyMetaExpr, Json.arr (ps.map payloadToJson).toArray)])))]
+        | none => []) ++
       (match v with | some r => [(keyValue, rawToJson r)] | none => [])
 
 /-- strict reading of a payload dict: unknown keys, `"a": false`, ill-typed fields are refused -/
@@ -125,12 +138,52 @@ partial def payloadOfJson (j : Json) : Except String Payload := do
     | none => pure none
   let m ← match optField j keyMeta with
     | some x => do
-      if x.isNull then throw "meta null" else metaOfJson x
+      if x.isNull then throw "meta null" else
+        let o ← x.getObj?
+        pure (some (← o.toList.mapM fun (k, v) => do
+          match v with
+          | .obj _ =>
+            match optField v keyMetaExpr with
+            | some e => pure (PMeta.expr k (← (← e.getArr?).toList.mapM payloadOfJson))
+            | none => throw "dict meta value"
+          | _ => pure (PMeta.raw k (← rawOfJson v))))
     | none => pure none
   let v ← match optField j keyValue with
     | some x => do pure (some (← rawOfJson x))
     | none => pure none
   pure (.mk i k a cls ty c m v)
+
+def optNat : Option Nat → Json
+  | none => .null
+  | some n => (n : Json)
+
+def cellsToJson (A : List Cell) : Json :=
+  .arr (A.map fun
+    | .node _ _ _ _ _ l h =>
+      match l with
+      | none => Json.arr #[.str "n", .null, .null, .null, .bool h.isNone]
+      | some lk => Json.arr #[.str "n", (lk.parent : Json), .str lk.key, optNat lk.index, .bool h.isNone]
+    | _ => Json.str "s").toArray
+
+/-- arena indices in pre-order from `root` (children in args order, list elements in order) -/
+partial def preorder (A : List Cell) (root : Nat) : List Nat :=
+  match A[root]? with
+  | some (.node _ _ _ _ args _ _) =>
+    root :: (args.flatMap fun (_, s) => match s with
+      | .one r => preorder A r
+      | .many rs => rs.flatMap (preorder A))
+  | _ => [root]
+
+/-- the same view as `cellsToJson`, cells listed and numbered in pre-order -/
+def preorderView (A : List Cell) : Json :=
+  let order := preorder A 0
+  let num := fun (i : Nat) => order.idxOf i
+  .arr (order.map fun i => match A[i]? with
+    | some (.node _ _ _ _ _ l h) =>
+      match l with
+      | none => Json.arr #[.str "n", .null, .null, .null, .bool h.isNone]
+      | some lk => Json.arr #[.str "n", (num lk.parent : Json), .str lk.key, optNat lk.index, .bool h.isNone]
+    | _ => Json.str "s").toArray
 
 def handle (line : String) : Except String String := do
   let j ← Json.parse line
@@ -149,6 +202,31 @@ def handle (line : String) : Except String String := do
       | some none => .str "none"
       | some (some v) => valToJson v
     if got == want then pure "ok" else pure ("diff " ++ got.compress)
+  | "arena" =>
+    -- the object graph itself: per cell "s" (scalar / DType) or ["n", parent|null, arg_key|null, index|null, hashIsNone]
+    let ps ← (← (← j.getObjVal? "payload").getArr?).toList.mapM payloadOfJson
+    let want ← j.getObjVal? "expect"
+    let got : Json := match loadArena ps with
+      | none => .str "err"
+      | some A => cellsToJson A
+    if got == want then pure "ok" else pure ("diff " ++ got.compress)
+  | "copy" =>
+    -- model of __deepcopy__: the copy read back as a tree, and its object graph (links, which hashes survive)
+    let t ← valOfJson (← j.getObjVal? "tree")
+    let hashed ← (← j.getObjVal? "hashed").getBool?
+    let hashOf : Val → Option Nat := fun _ => if hashed then some 1 else none
+    let want ← j.getObjVal? "expect"
+    let wantView ← j.getObjVal? "view"
+    match copyArena hashOf t with
+    | none => pure "diff copy-raises"
+    | some B =>
+      let got : Json := match reify B t.size 0 with
+        | none => .str "err"
+        | some v => valToJson v
+      if got != want then pure ("diff " ++ got.compress)
+      else
+        let gv := preorderView B
+        if gv == wantView then pure "ok" else pure ("diffview " ++ gv.compress)
   | "norm" =>
     let t ← valOfJson (← j.getObjVal? "tree")
     pure (valToJson t.norm).compress
